@@ -18,14 +18,15 @@ from .c12 import mutate_tree
 LEVEL = "exploration"
 SHARDS = {"quick": 1, "thorough": 16}
 REQUIRED = ("repacks_after_failed_pack_of_another_packet", "position_sweep_trees", "repacks_after_assignment", "packs_compared_with_reference_encoding", "reparse_compared", "assert_consistency_true", "insert_traces_compared",
-            "built_by_kwargs", "built_by_attrs", "built_by_mixed", "built_by_inplace", "nested_trees", "boundary_int_values", "empty_lists", "absent_optionals",
+            "families_with_a_shared_options_table", "built_by_kwargs", "built_by_attrs", "built_by_mixed", "built_by_inplace", "nested_trees", "boundary_int_values", "empty_lists", "absent_optionals",
             "f2_probe_runs")
 MIN_NONTRIVIAL = 150
 RULE = {
-    "quick": "~420 generated families x up to 10 consistent value trees (from lazy parses; boundary integers, empty/maximal lists, absent "
+    "quick": "~360 generated families + ~120 of a selector-heavy population (several run-time selected fields per declaration, "
+             "often sharing one options table object) x up to 10 consistent value trees (from lazy parses; boundary integers, empty/maximal lists, absent "
              "optionals, nested packets) x 3 construction styles x 2 variants. Non-trivial = tree with at least two leaves whose encoding is "
              "non-empty; distinct = (declaration skeleton, construction style, shape of the value tree [list lengths, None-ness, nesting]).",
-    "thorough": "16 shards x 2200 families, nesting <= 4.",
+    "thorough": "16 shards x (2000 + 660) families, nesting <= 4.",
 }
 ASSUMPTIONS = [
     "a value tree is consistent with its declaration iff the reference model parses its own reference encoding back to the same tree",
@@ -251,7 +252,7 @@ def f2_probe(run):
 def run(run):
     shard, nshards = run.shard
     rng = rng_for(run.seed, "c02", shard)
-    nfam = 420 if run.tier == "quick" else 2200
+    nfam = 360 if run.tier == "quick" else 2000
     profile = {"allow_regex_nokeep_single": False, "p_move": 0.2, "p_backward_at": 0.3, "allow_raw_callbacks": False, "p_describe": 0.08}
     if run.tier == "thorough":
         profile["max_depth"] = 4
@@ -260,9 +261,15 @@ def run(run):
     else:
         run.count("f2_probe_runs")
     sampled = 0
+    # second population: several run-time selected fields per declaration, often sharing one options table object
+    sel_profile = dict(profile, kinds={"int": 30, "data": 18, "bits": 6, "ref": 10, "sel": 30, "em": 2}, p_share_table=0.6, p_rep=0.2, p_opt=0.12)
+    import itertools
     with monitors.fragments_monitor() as mon:
-        for bench in driver.families(run, rng, profile, VARIANTS, nfam, instrument=(), tag="c02"):
+        for bench in itertools.chain(driver.families(run, rng, profile, VARIANTS, nfam, instrument=(), tag="c02"),
+                                     driver.families(run, rng, sel_profile, VARIANTS, nfam // 3, instrument=(), tag="c02s")):
             fam = bench.fam
+            if any("share" in f for d in fam["decls"].values() for f in d["fields"]):
+                run.count("families_with_a_shared_options_table")
             seen = set()
             for j in range(10):
                 raw, oc = model.generate_input(fam, rng, maxlen=120)
